@@ -21,15 +21,16 @@ RULE = ("Hypothesis-generated cases: ntheta 6-12 (periodic), nr 6-12 (clamped), 
         "velocity outside the radial domain; implicit by a fixed point converged 1000x tighter, with clipping) on nodes "
         "whose predictor and final feet are farther than 1e-9 (rMax-rMin) from the radial boundary; exact solutions: "
         "constant phi => f unchanged, phi = omega r^2/2 => rigid rotation by omega dt/B0 (np.roll for whole cells); "
-        "explicit vs implicit differ with observed order >= 2.5 in dt; the implicit iteration needs <= 60 sweeps in the "
-        "contraction regime (counted by wrapping the evaluation kernel).  Non-trivial = phi and f not constant and some "
+        "explicit vs implicit differ with observed order >= 2.5 in dt; the implicit iteration needs no more sweeps (+15) than "
+        "the reference fixed point does for a 1000x tighter tolerance, dt being limited to an estimated contraction factor "
+        "<= 0.63 (counted by wrapping the evaluation kernel).  Non-trivial = phi and f not constant and some "
         "foot displaced by more than a cell; distinct = distinct case digest.  (grid) PoloidalAdvection.gridStep and "
         "gridStep_SplinesUnchanged on the distributed distribution function of simulated worlds (poloidal layout, "
         "potential different on every z plane) vs the per-plane reference with each plane's own global (v, z); "
         "non-trivial = >= 2 z planes on some rank.")
 ASSUMPTIONS = ["simulated MPI for the grid-level sub-check", "spline degree >= 2 in both directions (continuous drift; degree 1 puts every node on a derivative jump)",
                "nodes whose foot is within rounding distance of the radial boundary are excluded (counted in labels)",
-               "termination is claimed only in the contraction regime |dt|/2 Lip(a) <= 0.5 (estimated numerically)",
+               "termination is claimed only in the contraction regime 1.5 |dt|/2 Lip(a) <= 0.95 (estimated numerically), relative to the sweeps the reference iteration needs",
                "phi is passed as a Spline2D filled by pygyro's own 2-D interpolator; the reference reads the same "
                "coefficient array (C08 decides the interpolator)"]
 
@@ -65,6 +66,7 @@ def cases(draw, tier):
     c["nul"] = draw(st.booleans())
     c["explicit"] = draw(st.sampled_from([True, True, False]))
     c["tol"] = draw(st.sampled_from([1e-10, 1e-12, 1e-8]))
+    c["slow"] = draw(st.integers(0, 2)) == 0        # implicit scheme: a time step closer to the edge of the contraction regime
     if draw(st.integers(0, 2)) == 0:
         # a potential with few non-zero spline coefficients (a vortex localised in theta and r): the drift vanishes
         # identically on most of the grid, so the nodes do not all converge / leave the domain alike
@@ -191,8 +193,11 @@ def predicate(c):
     if not c["explicit"]:
         J = jac_norm(sref, Cphi, theta, rpts, c["B0"])
         q = abs(dt) / 2 * J * 1.5
-        if q > 0.5:
-            dt = dt * 0.5 / q * 0.95
+        # q carries a safety factor 1.5: the true contraction factor stays below ~0.63, or ~0.9 for the cases marked slow
+        QMAX = 1.35 if c.get("slow") else 0.95
+        if q > QMAX:
+            dt = dt * QMAX / q * 0.95
+            q = QMAX * 0.95
             labels.append("dt-reduced-to-contraction-regime")
         # the stopping test compares successive iterates with tol; the drift is a difference of O(max|c|/h) terms, so
         # the iterates carry rounding noise of about eps * |dt| * max|c| / (h r_min B0).  A tolerance below that floor
@@ -203,9 +208,14 @@ def predicate(c):
         if abs(dt) * floor * 100 > c["tol"]:
             dt = math.copysign(c["tol"] / (100 * floor), dt)
             labels.append("dt-capped-by-rounding-floor")
+        # the reference runs the same fixed-point map from the same first guess to a 1000x tighter tolerance: the
+        # number of sweeps it needs bounds what the code may need
+        _, info0 = advect.poloidal_step_ref(f0, Cphi, sref, theta, rpts, dt, c["v"], c["B0"], cd, c["nul"],
+                                            explicit=False, tol=c["tol"])
+        nref = int(info0["sweeps"])
         # count fixed-point sweeps by wrapping the evaluation kernels
         nodes = f0.size
-        limit = (2 * 200 + 1) * nodes
+        limit = (2 * (nref + 60) + 1) * nodes
         counter = {"n": 0}
         names = ["nu_eval_spline_2d_scalar", "cu_eval_spline_2d_scalar"]
         orig = {n: getattr(ACC, n) for n in names}
@@ -214,8 +224,9 @@ def predicate(c):
             def g(*a, **k):
                 counter["n"] += 1
                 if counter["n"] > limit:
-                    raise Violation("C12:implicit-nontermination", "more than 200 fixed-point sweeps in the contraction regime "
-                                    "(|dt|/2 Lip = %.3f, tol %g)" % (abs(dt) / 2 * J, c["tol"]))
+                    raise Violation("C12:implicit-nontermination", "more than %d fixed-point sweeps in the contraction regime "
+                                    "(|dt|/2 Lip = %.3f, tol %g); the reference iteration needs %d for a 1000x tighter tolerance"
+                                    % (nref + 60, abs(dt) / 2 * J, c["tol"], nref))
                 return fn(*a, **k)
             return g
         for n in names:
@@ -228,9 +239,16 @@ def predicate(c):
             for n in names:
                 setattr(ACC, n, orig[n])
         sweeps_seen = (counter["n"] - nodes) / (2.0 * nodes)
-        if sweeps_seen > 60:
-            raise Violation("C12:implicit-too-many-sweeps", "%.1f fixed-point sweeps in the contraction regime (|dt|/2 Lip = %.3f, tol %g)"
-                            % (sweeps_seen, abs(dt) / 2 * J, c["tol"]))
+        labels.append("contraction<=0.5" if q <= 0.5 else ("contraction<=0.95" if q <= 0.95 else "contraction<=1.35/1.5"))
+        if nref > 20:
+            labels.append("reference-needs>20-sweeps")
+        ntol = info0.get("sweeps_tol")
+        if ntol is not None and sweeps_seen < ntol - 3:
+            raise Violation("C12:implicit-stopped-early", "the iteration stopped after %.1f sweeps; the same fixed-point map, from the "
+                            "same first guess, only gets its update below tol = %g at sweep %d" % (sweeps_seen, c["tol"], ntol))
+        if sweeps_seen > nref + 15:
+            raise Violation("C12:implicit-too-many-sweeps", "%.1f fixed-point sweeps (|dt|/2 Lip = %.3f, tol %g); the reference "
+                            "iteration needs %d for a 1000x tighter tolerance" % (sweeps_seen, abs(dt) / 2 * J, c["tol"], nref))
     else:
         with crash_is_violation("C12:step", "PoloidalAdvection.step (explicit)"):
             got = f0.copy()
